@@ -313,3 +313,279 @@ Example rend_example :
   RendSpec 1 [IIdent "a"; IOp R_add; IIdent "b"; IOp R_multiply; IIdent "c"]
            (EBin Add (EId "a") (EBin Multiply (EId "b") (EId "c"))).
 Proof. apply (C10_parse_sound 20). vm_compute. reflexivity. Qed.
+
+(* ======================================================================================================
+   THE GRAMMAR LAYER.  coq/Peg.v is an executable transcription of pest 2.8.3 (parser_state.rs, stack.rs,
+   position.rs, and how pest_generator compiles rules); coq/gen/Grammar.v is grammar.pest after pest_meta's
+   optimizer, REGENERATED on every run by translate/pest2coq.py; the PEG-tree / PEG-malformed streams of
+   checks/c10.py compare the model's pair tree with `get_pairs` on every generated program text and on
+   mutated texts.  The theorems below are (a) facts about the interpreter for EVERY grammar, (b) the name
+   rules of the regenerated grammar = the specification functions of C10Ident.v, (c) implicit whitespace.
+   Imports are kept inside a module: Peg.v and Grammar.v reuse short names (Ok, Seq, ...). *)
+Require Blots.Peg Blots.PegWf Blots.gen.Grammar Blots.proofs.PegGeneric Blots.proofs.PegPure Blots.proofs.PegIdent
+        Blots.proofs.PegShift Blots.proofs.PegLayout Blots.proofs.PegBlots Blots.proofs.PegNumber.
+Module PegLayer.
+Import Blots.Peg Blots.PegWf Blots.gen.Grammar Blots.proofs.PegGeneric Blots.proofs.PegPure Blots.proofs.PegIdent.
+Import Blots.proofs.PegShift Blots.proofs.PegLayout Blots.proofs.PegBlots.
+Import Blots.C10Ident Blots.gen.IdentRules.
+
+(* (a1) more fuel never changes a result other than OutOfFuel — every grammar, every rule, every text.
+   (Determinism needs no theorem: [parse] is a function.) *)
+Theorem C10_peg_fuel_monotone : forall (R : Type) (g : grammar R) f f' r text,
+  f <= f' -> parse g f r text <> OutOfFuel -> parse g f' r text = parse g f r text.
+Proof. exact parse_fuel_mono. Qed.
+Check C10_peg_fuel_monotone : forall (R : Type) (g : grammar R) f f' r text,
+  f <= f' -> parse g f r text <> OutOfFuel -> parse g f' r text = parse g f r text.
+Print Assumptions C10_peg_fuel_monotone.
+
+(* (a2) a failing expression leaves position, remaining input and the produced pairs untouched — what
+   pest's `optional`, `repeat` and `or_else`, which do not restore anything, rely on. *)
+Theorem C10_peg_failure_restores : forall (R : Type) (g : grammar R) f m a la e s s',
+  run g f m a la e s = Fail s' -> pos s' = pos s /\ rest s' = rest s /\ out s' = out s.
+Proof. exact run_fail_unchanged. Qed.
+Check C10_peg_failure_restores : forall (R : Type) (g : grammar R) f m a la e s s',
+  run g f m a la e s = Fail s' -> pos s' = pos s /\ rest s' = rest s /\ out s' = out s.
+Print Assumptions C10_peg_failure_restores.
+
+(* (a3) every success consumes a prefix of the remaining input, and the pairs it adds are ordered,
+   nested (children inside parents) and inside the consumed span. *)
+Theorem C10_peg_success_consumes_prefix : forall (R : Type) (g : grammar R) f m a la e s s',
+  run g f m a la e s = Ok s' ->
+  (pos s <= pos s')%N /\ (pos s' + slen (rest s') = pos s + slen (rest s))%N /\
+  (exists k, rest s' = sdrop k (rest s)) /\
+  exists new, out s' = (new ++ out s)%list /\ forest_ok R (pos s) (pos s') (rev new).
+Proof. exact run_spans. Qed.
+Check C10_peg_success_consumes_prefix : forall (R : Type) (g : grammar R) f m a la e s s',
+  run g f m a la e s = Ok s' ->
+  (pos s <= pos s')%N /\ (pos s' + slen (rest s') = pos s + slen (rest s))%N /\
+  (exists k, rest s' = sdrop k (rest s)) /\
+  exists new, out s' = (new ++ out s)%list /\ forest_ok R (pos s) (pos s') (rev new).
+Print Assumptions C10_peg_success_consumes_prefix.
+
+(* (a4) the parser's share of C01 "locations lie inside the text": every pair of every successful parse, of
+   any grammar from any rule, has 0 <= start <= end <= length of the text in bytes, siblings ordered. *)
+Theorem C10_peg_pairs_inside_text : forall (R : Type) (g : grammar R) f r text s',
+  parse g f r text = Ok s' -> forest_ok R 0 (slen text) (rev (out s')) /\ (pos s' <= slen text)%N.
+Proof. exact parse_spans_inside_text. Qed.
+Check C10_peg_pairs_inside_text : forall (R : Type) (g : grammar R) f r text s',
+  parse g f r text = Ok s' -> forest_ok R 0 (slen text) (rev (out s')) /\ (pos s' <= slen text)%N.
+Print Assumptions C10_peg_pairs_inside_text.
+
+(* (b1) the rule `identifier` of the regenerated grammar accepts exactly what C10Ident.identifier (the
+   specification the name theorems are about) accepts, with the same remainder, in every calling context,
+   with fuel = a constant + the number of bytes left. *)
+Theorem C10_peg_identifier_rule : exists n, forall fuel a la s,
+  n + String.length (rest s) <= fuel ->
+  call_with blots_grammar (run blots_grammar fuel) a la PG_identifier s
+  = rule_wrap PG_identifier a la (fun s' => pure_out grule s' (identifier reserved_words (rest s'))) s.
+Proof. exact peg_identifier_call. Qed.
+Check C10_peg_identifier_rule : exists n, forall fuel a la s,
+  n + String.length (rest s) <= fuel ->
+  call_with blots_grammar (run blots_grammar fuel) a la PG_identifier s
+  = rule_wrap PG_identifier a la (fun s' => pure_out grule s' (identifier reserved_words (rest s'))) s.
+Print Assumptions C10_peg_identifier_rule.
+
+Theorem C10_peg_identifier_language : exists n, forall text fuel,
+  n + String.length text <= fuel ->
+  parse blots_grammar fuel PG_identifier text =
+  match identifier reserved_words text with
+  | Some r => Ok (mkst (slen text - slen r) r stack_new [Node PG_identifier 0 (slen text - slen r) []])
+  | None => Fail (init text)
+  end.
+Proof. exact peg_identifier_language. Qed.
+Check C10_peg_identifier_language : exists n, forall text fuel,
+  n + String.length text <= fuel ->
+  parse blots_grammar fuel PG_identifier text =
+  match identifier reserved_words text with
+  | Some r => Ok (mkst (slen text - slen r) r stack_new [Node PG_identifier 0 (slen text - slen r) []])
+  | None => Fail (init text)
+  end.
+Print Assumptions C10_peg_identifier_language.
+
+(* (b2) bool, null, identifier_rest, reserved_word of the regenerated grammar = bool_rule / null_rule /
+   identifier_rest / first_lit of C10Ident.v with the flags of gen/IdentRules.v (two independent translators
+   of grammar.pest meet here), wherever no implicit whitespace is skipped (inside `expression`). *)
+Theorem C10_peg_word_rules : forall a, a <> NonAtomic -> exists n, forall fuel la s,
+  n + String.length (rest s) <= fuel ->
+  run blots_grammar fuel false a la (rd_body (grule_def PG_bool)) s = pure_out grule s (bool_rule bool_boundary (rest s)) /\
+  run blots_grammar fuel false a la (rd_body (grule_def PG_null)) s = pure_out grule s (null_rule null_boundary (rest s)) /\
+  run blots_grammar fuel false a la (Ident PG_identifier_rest) s = pure_out grule s (identifier_rest (rest s)) /\
+  run blots_grammar fuel false a la (Ident PG_reserved_word) s = pure_out grule s (first_lit reserved_words (rest s)).
+Proof. exact peg_word_rules. Qed.
+Check C10_peg_word_rules : forall a, a <> NonAtomic -> exists n, forall fuel la s,
+  n + String.length (rest s) <= fuel ->
+  run blots_grammar fuel false a la (rd_body (grule_def PG_bool)) s = pure_out grule s (bool_rule bool_boundary (rest s)) /\
+  run blots_grammar fuel false a la (rd_body (grule_def PG_null)) s = pure_out grule s (null_rule null_boundary (rest s)) /\
+  run blots_grammar fuel false a la (Ident PG_identifier_rest) s = pure_out grule s (identifier_rest (rest s)) /\
+  run blots_grammar fuel false a la (Ident PG_reserved_word) s = pure_out grule s (first_lit reserved_words (rest s)).
+Print Assumptions C10_peg_word_rules.
+
+(* (b3) C10_ident_rule over the grammar text: a plain name that is not a reserved word, followed by
+   something that cannot continue a name, is rejected by `bool` and by `null` and read whole by
+   `identifier` (so reserved words are the only plain names the rule refuses: see the Examples). *)
+Theorem C10_peg_plain_name_is_identifier : forall a, a <> NonAtomic -> exists n, forall name after fuel la s,
+  valid_name name = true -> is_reserved reserved_words name = false -> boundary after = true ->
+  rest s = (name ++ after)%string -> n + String.length (rest s) <= fuel ->
+  run blots_grammar fuel false a la (rd_body (grule_def PG_bool)) s = Fail s /\
+  run blots_grammar fuel false a la (rd_body (grule_def PG_null)) s = Fail s /\
+  call_with blots_grammar (run blots_grammar fuel) a la PG_identifier s
+  = rule_wrap PG_identifier a la (fun s' => Ok (set_pos s' (pos s' + slen name) after)) s.
+Proof. exact peg_plain_name_is_identifier. Qed.
+Check C10_peg_plain_name_is_identifier : forall a, a <> NonAtomic -> exists n, forall name after fuel la s,
+  valid_name name = true -> is_reserved reserved_words name = false -> boundary after = true ->
+  rest s = (name ++ after)%string -> n + String.length (rest s) <= fuel ->
+  run blots_grammar fuel false a la (rd_body (grule_def PG_bool)) s = Fail s /\
+  run blots_grammar fuel false a la (rd_body (grule_def PG_null)) s = Fail s /\
+  call_with blots_grammar (run blots_grammar fuel) a la PG_identifier s
+  = rule_wrap PG_identifier a la (fun s' => Ok (set_pos s' (pos s' + slen name) after)) s.
+Print Assumptions C10_peg_plain_name_is_identifier.
+
+(* every reserved word is rejected by the rule `identifier` when a boundary follows; `iffy` is a name *)
+Example peg_reserved_words_rejected :
+  forallb (fun w => match parse blots_grammar 200 PG_identifier (w ++ " + 1") with Fail _ => true | _ => false end)
+          reserved_words = true.
+Proof. vm_compute. reflexivity. Qed.
+Example peg_iffy_is_a_name :
+  show_res grule_name (parse blots_grammar 200 PG_identifier "iffy") = "OK (identifier 0 4)"%string.
+Proof. vm_compute. reflexivity. Qed.
+
+(* (c1) POSITION INDEPENDENCE, every grammar: away from the very start of the input (where SOI holds), moving
+   the byte offset by d with the same remaining input and stack gives the same result with the final offset and
+   the spans of all produced pairs moved by d — "the same tree up to spans". *)
+Theorem C10_peg_position_independent : forall (R : Type) (g : grammar R) (d : N) f m a la e o o' s s',
+  rel R d o o' s s' -> (0 < pos s)%N -> rel_res R d o o' (run g f m a la e s) (run g f m a la e s').
+Proof. exact run_shift. Qed.
+Check C10_peg_position_independent : forall (R : Type) (g : grammar R) (d : N) f m a la e o o' s s',
+  rel R d o o' s s' -> (0 < pos s)%N -> rel_res R d o o' (run g f m a la e s) (run g f m a la e s').
+Print Assumptions C10_peg_position_independent.
+
+(* (c2) for EVERY grammar whose WHITESPACE is a silent ordered choice of single characters and that has no
+   COMMENT rule: `skip` over (blanks ++ t) at offset p ends in the state of `skip` over t at offset p + |blanks|. *)
+Theorem C10_peg_skip_absorbs_blanks : forall (R : Type) (g : grammar R) (w : R) c0 cs,
+  g_ws g = Some w -> g_comment g = None -> g_def g w = mkdef MSilent true (char_choice c0 cs) ->
+  forall f n la p b t k o,
+  S (List.length cs) + String.length (b ++ t) <= f -> String.length (b ++ t) < n ->
+  all_in (is_ws c0 cs) b = true ->
+  skip_with g n (call_with g (run g f)) NonAtomic la (mkst p (b ++ t)%string k o)
+  = skip_with g n (call_with g (run g f)) NonAtomic la (mkst (p + slen b)%N t k o).
+Proof. exact skip_absorbs. Qed.
+Check C10_peg_skip_absorbs_blanks : forall (R : Type) (g : grammar R) (w : R) c0 cs,
+  g_ws g = Some w -> g_comment g = None -> g_def g w = mkdef MSilent true (char_choice c0 cs) ->
+  forall f n la p b t k o,
+  S (List.length cs) + String.length (b ++ t) <= f -> String.length (b ++ t) < n ->
+  all_in (is_ws c0 cs) b = true ->
+  skip_with g n (call_with g (run g f)) NonAtomic la (mkst p (b ++ t)%string k o)
+  = skip_with g n (call_with g (run g f)) NonAtomic la (mkst (p + slen b)%N t k o).
+Print Assumptions C10_peg_skip_absorbs_blanks.
+
+(* (c3) LAYOUT for a non-atomic sequence x ~ y of such a grammar: additional blanks b between the two tokens
+   (right after what x consumed — where skip runs) change nothing but positions: if x ends at the same offset
+   with the same stack and pairs on the text with b inserted, then x ~ y gives on that text the result it gave
+   before with x's pairs unchanged and everything after the junction moved by |b|; failure, Panic and OutOfFuel
+   are preserved.  (0 < offset: not before the first byte of the input, where SOI is observable.) *)
+Theorem C10_peg_blanks_between_tokens : forall (R : Type) (g : grammar R) (w : R) c0 cs,
+  g_ws g = Some w -> g_comment g = None -> g_def g w = mkdef MSilent true (char_choice c0 cs) ->
+  forall f la x y (s sb s1 : st R) b,
+  run g f false NonAtomic la x s = Ok s1 ->
+  run g f false NonAtomic la x sb = Ok (mkst (pos s1) (b ++ rest s1)%string (stk s1) (out s1)) ->
+  all_in (is_ws c0 cs) b = true -> (0 < pos s1)%N ->
+  S (List.length cs) + String.length (b ++ rest s1) < f ->
+  layout_equiv R (slen b) (out s1) s sb
+               (run g (S f) false NonAtomic la (Seq x y) s) (run g (S f) false NonAtomic la (Seq x y) sb).
+Proof. exact seq_layout. Qed.
+Check C10_peg_blanks_between_tokens : forall (R : Type) (g : grammar R) (w : R) c0 cs,
+  g_ws g = Some w -> g_comment g = None -> g_def g w = mkdef MSilent true (char_choice c0 cs) ->
+  forall f la x y (s sb s1 : st R) b,
+  run g f false NonAtomic la x s = Ok s1 ->
+  run g f false NonAtomic la x sb = Ok (mkst (pos s1) (b ++ rest s1)%string (stk s1) (out s1)) ->
+  all_in (is_ws c0 cs) b = true -> (0 < pos s1)%N ->
+  S (List.length cs) + String.length (b ++ rest s1) < f ->
+  layout_equiv R (slen b) (out s1) s sb
+               (run g (S f) false NonAtomic la (Seq x y) s) (run g (S f) false NonAtomic la (Seq x y) sb).
+Print Assumptions C10_peg_blanks_between_tokens.
+
+(* ... and the regenerated grammar IS such a grammar (blank = " " | "\t"): the instance for gen/Grammar.v;
+   a changed WHITESPACE rule in grammar.pest breaks this proof. *)
+Theorem C10_peg_blots_blanks_between_tokens : forall f la x y (s sb s1 : st grule) b,
+  run blots_grammar f false NonAtomic la x s = Ok s1 ->
+  run blots_grammar f false NonAtomic la x sb = Ok (mkst (pos s1) (b ++ rest s1)%string (stk s1) (out s1)) ->
+  all_in blank b = true -> (0 < pos s1)%N ->
+  2 + String.length (b ++ rest s1) < f ->
+  layout_equiv grule (slen b) (out s1) s sb
+               (run blots_grammar (S f) false NonAtomic la (Seq x y) s)
+               (run blots_grammar (S f) false NonAtomic la (Seq x y) sb).
+Proof. exact blots_seq_layout. Qed.
+Check C10_peg_blots_blanks_between_tokens : forall f la x y (s sb s1 : st grule) b,
+  run blots_grammar f false NonAtomic la x s = Ok s1 ->
+  run blots_grammar f false NonAtomic la x sb = Ok (mkst (pos s1) (b ++ rest s1)%string (stk s1) (out s1)) ->
+  all_in blank b = true -> (0 < pos s1)%N ->
+  2 + String.length (b ++ rest s1) < f ->
+  layout_equiv grule (slen b) (out s1) s sb
+               (run blots_grammar (S f) false NonAtomic la (Seq x y) s)
+               (run blots_grammar (S f) false NonAtomic la (Seq x y) sb).
+Print Assumptions C10_peg_blots_blanks_between_tokens.
+
+(* (b4) C16's number token: the rule `number` of the regenerated grammar, run by the pest interpreter, accepts
+   exactly the language of gen/NumGrammar.v (the PEG-combinator term Properties/C16.v is about, regenerated
+   from grammar.pest by checks/c16.py — a third independent reading of the same source text), with the same
+   remainder, in every calling context. *)
+Theorem C10_peg_number_rule : exists n, forall fuel a la s,
+  n + String.length (rest s) <= fuel ->
+  call_with blots_grammar (run blots_grammar fuel) a la PG_number s
+  = rule_wrap PG_number a la (fun s' => pure_out grule s' (Blots.gen.NumGrammar.gen_number (rest s'))) s.
+Proof. exact Blots.proofs.PegNumber.peg_number_call. Qed.
+Check C10_peg_number_rule : exists n, forall fuel a la s,
+  n + String.length (rest s) <= fuel ->
+  call_with blots_grammar (run blots_grammar fuel) a la PG_number s
+  = rule_wrap PG_number a la (fun s' => pure_out grule s' (Blots.gen.NumGrammar.gen_number (rest s'))) s.
+Print Assumptions C10_peg_number_rule.
+
+Theorem C10_peg_number_language : exists n, forall text fuel,
+  n + String.length text <= fuel ->
+  parse blots_grammar fuel PG_number text =
+  match Blots.gen.NumGrammar.gen_number text with
+  | Some r => Ok (mkst (slen text - slen r) r stack_new [Node PG_number 0 (slen text - slen r) []])
+  | None => Fail (init text)
+  end.
+Proof. exact Blots.proofs.PegNumber.peg_number_language. Qed.
+Check C10_peg_number_language : exists n, forall text fuel,
+  n + String.length text <= fuel ->
+  parse blots_grammar fuel PG_number text =
+  match Blots.gen.NumGrammar.gen_number text with
+  | Some r => Ok (mkst (slen text - slen r) r stack_new [Node PG_number 0 (slen text - slen r) []])
+  | None => Fail (init text)
+  end.
+Print Assumptions C10_peg_number_language.
+
+(* (c4) the hypothesis of (c3) discharged for a literal token: "lit" ~ y with additional blanks after the
+   literal — unconditional. *)
+Theorem C10_peg_blanks_after_literal : forall (R : Type) (g : grammar R) (w : R) c0 cs,
+  g_ws g = Some w -> g_comment g = None -> g_def g w = mkdef MSilent true (char_choice c0 cs) ->
+  forall f la lit y p t b k o,
+  all_in (is_ws c0 cs) b = true -> (0 < p + slen lit)%N ->
+  S (List.length cs) + String.length (b ++ t) < f ->
+  layout_equiv R (slen b) o (mkst p (lit ++ t)%string k o) (mkst p (lit ++ b ++ t)%string k o)
+               (run g (S f) false NonAtomic la (Seq (Str lit) y) (mkst p (lit ++ t)%string k o))
+               (run g (S f) false NonAtomic la (Seq (Str lit) y) (mkst p (lit ++ b ++ t)%string k o)).
+Proof. exact seq_layout_literal. Qed.
+Check C10_peg_blanks_after_literal : forall (R : Type) (g : grammar R) (w : R) c0 cs,
+  g_ws g = Some w -> g_comment g = None -> g_def g w = mkdef MSilent true (char_choice c0 cs) ->
+  forall f la lit y p t b k o,
+  all_in (is_ws c0 cs) b = true -> (0 < p + slen lit)%N ->
+  S (List.length cs) + String.length (b ++ t) < f ->
+  layout_equiv R (slen b) o (mkst p (lit ++ t)%string k o) (mkst p (lit ++ b ++ t)%string k o)
+               (run g (S f) false NonAtomic la (Seq (Str lit) y) (mkst p (lit ++ t)%string k o))
+               (run g (S f) false NonAtomic la (Seq (Str lit) y) (mkst p (lit ++ b ++ t)%string k o)).
+Print Assumptions C10_peg_blanks_after_literal.
+
+(* (d) termination.  The regenerated grammar passes the computed well-formedness check (no left recursion, no
+   nullable repetition body, WHITESPACE not nullable); the fuel-sufficiency statement is kept as a Prop — NOT
+   proved; the PEG-* correspondence streams count OutOfFuel (0) with fuel 128 + 48 * bytes. *)
+Example peg_grammar_well_formed : wf_grammar blots_grammar all_grules grule_index = true.
+Proof. exact blots_grammar_wf. Qed.
+Definition fuel_sufficient_full : Prop :=
+  forall (R : Type) (g : grammar R) (rules : list R) (idx : R -> N),
+    (forall r, In r rules) -> (forall r r', idx r = idx r' -> r = r') ->
+    wf_grammar g rules idx = true ->
+    exists c, forall r text, parse g (c * (String.length text + 1) * List.length rules) r text <> OutOfFuel.
+End PegLayer.
